@@ -268,6 +268,9 @@ pub mod transcendental;
 pub mod types;
 mod wide_div;
 mod wrapping;
+#[cfg(substrate_fixed_verif)]
+#[doc(hidden)]
+pub mod verif_hooks;
 
 use crate::{
     arith::MulDivOverflow,
